@@ -25,6 +25,7 @@ type Config struct {
 	ModulePrefix  string
 	HarnessFiles  map[string]bool
 	MaxWitness    int
+	BudgetViolation bool
 }
 
 type Stats struct {
@@ -104,6 +105,7 @@ type Engine struct {
 	fnIDs     map[*ssa.Function]int32
 	typeIDs   map[string]int32
 	PoolPrecise bool
+	DecideProfile map[string]int
 	Witnesses []Witness
 }
 
@@ -279,6 +281,12 @@ func (e *Engine) decide2(st *State, c *Term, knownSat bool) bool {
 		return v
 	}
 	tb := e.tb
+	if e.DecideProfile != nil {
+		th := st.thread()
+		if fr := th.top(); fr != nil && fr.Mode == 0 && fr.IP < len(fr.Block.Instrs) {
+			e.DecideProfile[fr.Fn.String()+"@"+e.posStr(fr.Block.Instrs[fr.IP].Pos())+" "+fr.Block.Instrs[fr.IP].String()]++
+		}
+	}
 	if e.sol.Err != nil {
 		e.inconclusive("solver failure: %v", e.sol.Err)
 		panic(killPath{"solver failure"})
